@@ -1,11 +1,372 @@
-//! C19 (not built yet)
-use crate::report::{Disagreement, Run};
-use serde_json::Value;
+//! C19 Typed numbers are recognised exactly.
+//!
+//! Space: every string of length 1..=L over the 16 symbols `0 1 5 . , - + e E % $ € £ space / :` (quick L=5,
+//! thorough L=6) plus a date family (every a s1 b s2 c with a,b,c from 22 digit groups and s1,s2 from `/ - .`),
+//! each in the six locales, typed into a fresh cell through `Model::set_user_input`.
+//! Oracle: the three-valued recogniser of numrec.rs (written from the statement).
 
-pub fn run(run: &mut Run) {
-    run.machinery_errors.push("C19: check not built yet".into());
+use crate::fnum::{cell_kind, eq15, for_each_with_prefix, Kind, LOCALES};
+use crate::numrec::{sig_shape, Feats, Recogniser, Verdict};
+use crate::report::{Disagreement, Run};
+use ironcalc_base::formatter::lexer::is_likely_date_number_format;
+use ironcalc_base::Model;
+use serde_json::{json, Value};
+use std::collections::BTreeSet;
+
+pub const ALPHABET: [char; 16] = [
+    '0', '1', '5', '.', ',', '-', '+', 'e', 'E', '%', '$', '€', '£', ' ', '/', ':',
+];
+
+pub const DATE_PARTS: [&str; 22] = [
+    "0", "1", "2", "5", "9", "00", "01", "02", "12", "13", "15", "28", "29", "30", "31", "32", "99", "1899", "1900",
+    "2000", "2023", "2024",
+];
+pub const DATE_SEPS: [char; 3] = ['/', '-', '.'];
+
+pub struct Typed {
+    pub kind: Kind,
+    pub num_fmt: String,
 }
 
-pub fn replay(_case: &Value) -> Vec<Disagreement> {
-    vec![]
+pub struct Typist {
+    pub model: Model<'static>,
+    pub locale: &'static str,
+    pub language: &'static str,
+    inputs: usize,
+}
+
+impl Typist {
+    pub fn new(locale: &'static str, language: &'static str) -> Typist {
+        Typist {
+            model: Model::new_empty("c19", locale, "UTC", language).expect("model"),
+            locale,
+            language,
+            inputs: 0,
+        }
+    }
+    /// Types `s` into a fresh cell A1 and observes the cell. Err = the engine panicked.
+    pub fn type_in(&mut self, s: &str) -> Result<Typed, String> {
+        self.inputs += 1;
+        if self.inputs > 50_000 {
+            // keep the shared-string and formula tables small
+            *self = Typist::new(self.locale, self.language);
+        }
+        let model = &mut self.model;
+        let r = crate::env::guarded(|| {
+            model.workbook.worksheets[0].sheet_data.clear();
+            let _ = model.set_user_input(0, 1, 1, s.to_string());
+            let kind = cell_kind(model, 0, 1, 1);
+            let num_fmt = match kind {
+                Kind::Number(_) => model.get_style_for_cell(0, 1, 1).map(|st| st.num_fmt).unwrap_or_default(),
+                _ => String::new(),
+            };
+            Typed { kind, num_fmt }
+        });
+        if r.is_err() {
+            *self = Typist::new(self.locale, self.language);
+        }
+        r
+    }
+}
+
+fn fmt_feats(code: &str, want: &Feats) -> (bool, bool, bool, bool, bool) {
+    let date = is_likely_date_number_format(code);
+    let percent = code.contains('%');
+    let currency = match want.currency {
+        Some(c) => code.contains(c),
+        None => code.contains('$') || code.contains('€') || code.contains('£'),
+    };
+    let exponent = code.contains("E+") || code.contains("E-");
+    let grouped = code.contains(',');
+    (percent, currency, exponent, grouped, date)
+}
+
+fn want_kinds(f: &Feats) -> Vec<&'static str> {
+    let mut v = vec![];
+    if f.percent {
+        v.push("percent");
+    }
+    if f.currency.is_some() {
+        v.push("currency");
+    }
+    if f.exponent {
+        v.push("exponent");
+    }
+    if v.is_empty() && f.grouped {
+        v.push("grouped");
+    }
+    v
+}
+
+/// Returns (failure class, detail) when the observation contradicts the verdict.
+pub fn judge(v: &Verdict, t: &Typed) -> Option<(String, String)> {
+    let check_number = |value: f64, feats: &Feats, x: f64| -> Option<(String, String)> {
+        if !(eq15(x, value)) || (value != 0.0 && x.signum() != value.signum()) {
+            let class = if x == -value && value != 0.0 {
+                "sign-lost".to_string()
+            } else if !x.is_finite() {
+                "non-finite".to_string()
+            } else {
+                "wrong-value".to_string()
+            };
+            return Some((class, format!("expected the number {} but the cell stores {}", value, x)));
+        }
+        let want = want_kinds(feats);
+        if !want.is_empty() {
+            let (p, c, e, g, d) = fmt_feats(&t.num_fmt, feats);
+            let ok = want.iter().any(|k| match *k {
+                "percent" => p,
+                "currency" => c,
+                "exponent" => e,
+                "grouped" => g,
+                _ => false,
+            }) && !d;
+            if !ok {
+                return Some((
+                    format!("wrong-format want={}", want.join("|")),
+                    format!("value {} is right but the number format is `{}` (expected kind {})", x, t.num_fmt, want.join(" or ")),
+                ));
+            }
+        }
+        None
+    };
+    let check_date = |serials: &Vec<i64>, x: f64| -> Option<(String, String)> {
+        if !serials.iter().any(|s| *s as f64 == x) {
+            return Some(("wrong-serial".into(), format!("expected the date serial {:?} but the cell stores {}", serials, x)));
+        }
+        if !is_likely_date_number_format(&t.num_fmt) {
+            return Some(("no-date-format".into(), format!("serial {} is right but the number format is `{}`", x, t.num_fmt)));
+        }
+        None
+    };
+    match (v, &t.kind) {
+        (Verdict::Must { value, feats }, Kind::Number(x)) => check_number(*value, feats, *x),
+        (Verdict::Must { value, .. }, k) => Some((
+            format!("not-a-number stored={}", k.name()),
+            format!("expected the number {} but the cell is {:?}", value, k),
+        )),
+        (Verdict::MustDate { serials }, Kind::Number(x)) => check_date(serials, *x),
+        (Verdict::MustDate { serials }, k) => Some((
+            format!("not-a-number stored={}", k.name()),
+            format!("expected the date serial {:?} but the cell is {:?}", serials, k),
+        )),
+        (Verdict::IfNumber { value, feats, .. }, Kind::Number(x)) => check_number(*value, feats, *x),
+        (Verdict::IfDate { serials, .. }, Kind::Number(x)) => check_date(serials, *x),
+        (Verdict::MustNot { .. }, Kind::Number(x)) => Some((
+            "stored-as-number".into(),
+            format!("this text denotes no number but the cell stores the number {} (format `{}`)", x, t.num_fmt),
+        )),
+        _ => None,
+    }
+}
+
+pub fn check_one(rec: &Recogniser, ty: &mut Typist, s: &str) -> (Verdict, Option<Typed>, Option<Disagreement>) {
+    let v = rec.classify(s);
+    let case = json!({"locale": rec.li.id, "input": s});
+    match ty.type_in(s) {
+        Ok(t) => {
+            let d = judge(&v, &t).map(|(class, detail)| Disagreement {
+                sig: format!("{}:{} {} shape={}", v.name(), v.why(), class, sig_shape(s, &rec.li)),
+                case,
+                detail: format!("typing `{}` in locale {}: {} [oracle: {} ({})]", s, rec.li.id, detail, v.name(), v.why()),
+            });
+            (v, Some(t), d)
+        }
+        Err(p) => {
+            let d = Disagreement {
+                sig: format!("panic at={}", p.rsplit(" @ ").next().unwrap_or("?")),
+                case,
+                detail: format!("typing `{}` in locale {} panics: {}", s, rec.li.id, p),
+            };
+            (v, None, Some(d))
+        }
+    }
+}
+
+#[derive(Default)]
+struct Tally {
+    ds: Vec<Disagreement>,
+    n: u64,
+    must: u64,
+    must_not: u64,
+    if_judged: u64,
+    if_not_stored: u64,
+    unspec: u64,
+    numbers_stored: u64,
+    outcomes: BTreeSet<String>,
+    values: BTreeSet<u64>,
+    reasons: std::collections::BTreeMap<String, (u64, u64)>,
+}
+
+impl Tally {
+    fn take(&mut self, v: &Verdict, t: &Option<Typed>, d: Option<Disagreement>) {
+        self.n += 1;
+        let stored_number = matches!(t, Some(Typed { kind: Kind::Number(_), .. }));
+        match v {
+            Verdict::Must { .. } | Verdict::MustDate { .. } => self.must += 1,
+            Verdict::MustNot { .. } => self.must_not += 1,
+            Verdict::IfNumber { .. } | Verdict::IfDate { .. } => {
+                if stored_number {
+                    self.if_judged += 1
+                } else {
+                    self.if_not_stored += 1
+                }
+            }
+            Verdict::Unspec { .. } => self.unspec += 1,
+        }
+        let e = self.reasons.entry(format!("{}:{}", v.name(), v.why())).or_insert((0, 0));
+        e.0 += 1;
+        if stored_number {
+            e.1 += 1;
+        }
+        if let Some(t) = t {
+            if let Kind::Number(x) = t.kind {
+                self.numbers_stored += 1;
+                self.values.insert(x.to_bits());
+            }
+            self.outcomes.insert(format!("{}|{}", t.kind.name(), t.num_fmt));
+        }
+        if let Some(d) = d {
+            self.ds.push(d);
+        }
+    }
+}
+
+fn date_family() -> Vec<String> {
+    let mut v = vec![];
+    for a in DATE_PARTS {
+        for s1 in DATE_SEPS {
+            for b in DATE_PARTS {
+                for s2 in DATE_SEPS {
+                    for c in DATE_PARTS {
+                        v.push(format!("{}{}{}{}{}", a, s1, b, s2, c));
+                    }
+                }
+            }
+        }
+    }
+    v
+}
+
+pub fn run(run: &mut Run) {
+    let thorough = run.tier.thorough();
+    // thorough: length 6 in the three locales with distinct separator sets (en: `.` `,`; de: `,` `.`; fr: `,` and a
+    // group separator that cannot be typed from the alphabet), length 5 in en-GB, es, it (same separators as en / de,
+    // they differ in currency symbol and date order only)
+    let len_of = move |loc: &str| -> usize {
+        if thorough && (loc == "en" || loc == "de" || loc == "fr") {
+            6
+        } else {
+            5
+        }
+    };
+    let max_len: usize = if thorough { 6 } else { 5 };
+    let k = ALPHABET.len();
+    let dates = date_family();
+    // units: (locale, two-symbol prefix) for lengths 2..=L, (locale) for length 1 and the date family
+    let per_locale_units = k * k + 1 + 4;
+    let n_units = LOCALES.len() * per_locale_units;
+    let date_chunk = dates.len().div_ceil(4);
+    let res = crate::env::par_units(n_units, |u| {
+        let loc = LOCALES[u / per_locale_units];
+        let w = u % per_locale_units;
+        let rec = Recogniser::new(loc);
+        let mut ty = Typist::new(loc, "en");
+        let mut tally = Tally::default();
+        if w < k * k {
+            let prefix = [w / k, w % k];
+            for len in 2..=len_of(loc) {
+                for_each_with_prefix(&ALPHABET, &prefix, len, &mut |s| {
+                    let (v, t, d) = check_one(&rec, &mut ty, s);
+                    tally.take(&v, &t, d);
+                });
+            }
+        } else if w == k * k {
+            for_each_with_prefix(&ALPHABET, &[], 1, &mut |s| {
+                let (v, t, d) = check_one(&rec, &mut ty, s);
+                tally.take(&v, &t, d);
+            });
+        } else {
+            let c = w - k * k - 1;
+            for s in dates.iter().skip(c * date_chunk).take(date_chunk) {
+                let (v, t, d) = check_one(&rec, &mut ty, s);
+                tally.take(&v, &t, d);
+            }
+        }
+        tally
+    });
+    let mut total = Tally::default();
+    for r in res {
+        match r {
+            Ok(t) => {
+                run.add_all(t.ds);
+                total.n += t.n;
+                total.must += t.must;
+                total.must_not += t.must_not;
+                total.if_judged += t.if_judged;
+                total.if_not_stored += t.if_not_stored;
+                total.unspec += t.unspec;
+                total.numbers_stored += t.numbers_stored;
+                total.outcomes.extend(t.outcomes);
+                total.values.extend(t.values);
+                for (k, (a, b)) in t.reasons {
+                    let e = total.reasons.entry(k).or_insert((0, 0));
+                    e.0 += a;
+                    e.1 += b;
+                }
+            }
+            Err(e) => run.machinery_errors.push(format!("unit panicked: {}", e)),
+        }
+    }
+    let expected: u64 = LOCALES.iter().map(|l| crate::fnum::count_strings(k, len_of(l)) + dates.len() as u64).sum();
+    if total.n != expected {
+        run.machinery_errors.push(format!("enumerated {} inputs, expected {}", total.n, expected));
+    }
+    run.evaluations = total.n;
+    run.states = total.n;
+    run.transitions = total.n;
+    run.traces = total.n;
+    run.nontrivial = total.must + total.must_not + total.if_judged;
+    run.rule = "an input is non-trivial when the oracle judges it: the statement requires a number (must), excludes a number (must-not), or leaves recognition open but the engine stored a number whose value and format are then pinned (if-number); unspecified inputs are counted separately".into();
+    run.distinct_outcomes = total.outcomes.len() as u64 + total.values.len() as u64;
+    run.bound = json!({
+        "alphabet": ALPHABET.iter().collect::<String>(),
+        "max_length": max_len,
+        "max_length_per_locale": LOCALES.iter().map(|l| (l.to_string(), json!(len_of(l)))).collect::<serde_json::Map<String, Value>>(),
+        "strings_per_locale_at_max_length": crate::fnum::count_strings(k, max_len),
+        "date_family_per_locale": dates.len(),
+        "date_parts": DATE_PARTS,
+        "locales": LOCALES,
+    });
+    run.extra.insert("judged_must".into(), json!(total.must));
+    run.extra.insert("judged_must_not".into(), json!(total.must_not));
+    run.extra.insert("judged_if_number_stored".into(), json!(total.if_judged));
+    run.extra.insert("if_number_not_stored".into(), json!(total.if_not_stored));
+    run.extra.insert("unspecified_not_judged".into(), json!(total.unspec));
+    run.extra.insert("stored_as_number".into(), json!(total.numbers_stored));
+    run.extra.insert(
+        "verdict_reason_inputs_and_stored_as_number".into(),
+        json!(total.reasons.iter().map(|(k, (a, b))| (k.clone(), json!([a, b]))).collect::<serde_json::Map<String, Value>>()),
+    );
+    run.extra.insert("distinct_cell_kind_and_format".into(), json!(total.outcomes.len()));
+    run.extra.insert("distinct_number_values".into(), json!(total.values.len()));
+    run.sample(json!({"locale": "en", "input": "-$1e3", "oracle": "must-number -1000 (currency or exponent format)"}));
+    run.sample(json!({"locale": "de", "input": "1.555,5", "oracle": "must-number 1555.5 (grouped format)"}));
+    run.sample(json!({"locale": "en", "input": "1,5", "oracle": "must-not (misplaced group separator)"}));
+    run.sample(json!({"locale": "fr", "input": "31/12/2024", "oracle": "must-date 45657"}));
+    run.exhaustive = true;
+    run.assume("must-number: [-] digits with complete 3-digit grouping, [decimal part], [exponent], then % or the locale's own currency symbol before/after; value compared to 15 significant digits and by sign; format kind: the percent/currency/exponent kind typed (any one of them when several), else grouped");
+    run.assume("must-date: ISO yyyy-mm-dd, or day/month/year in the locale's order with the locale's own date separator and a 2- or 4-digit year (2-digit years: either century accepted)");
+    run.assume("must-not: a character left over, misplaced or doubled group separators, two signs, two symbols, % not last, exponent marker without digits, ':' or '/' outside a time/date shape, date shapes for which no assignment of day/month/year is a calendar date");
+    run.assume("not judged (counted): interior spaces, time shapes, two-part date shapes, dates readable only in another order, trailing sign, overflow to infinity (C08); judged only if stored as a number: leading +, bare leading/trailing decimal separator, sign after the currency symbol, $ € £ outside their locale, partial grouping, trailing group separator, spaces around the number or symbol, other date separators");
+    run.assume("only NumberCell counts as 'stored as a number'; inputs the engine turns into formulas (+x, -x with non-numeric x) are not numbers");
+}
+
+pub fn replay(case: &Value) -> Vec<Disagreement> {
+    let loc = case["locale"].as_str().unwrap_or("en");
+    let loc: &'static str = LOCALES.iter().find(|l| **l == loc).copied().unwrap_or("en");
+    let s = case["input"].as_str().unwrap_or("");
+    let rec = Recogniser::new(loc);
+    let mut ty = Typist::new(loc, "en");
+    check_one(&rec, &mut ty, s).2.into_iter().collect()
 }
